@@ -59,6 +59,8 @@ type CABehaviour struct {
 	Window string
 	// WrongKey: the CA certifies another public key than the one of the request (a mix-up at the CA)
 	WrongKey bool
+	// DelayMS: the CA takes this long before it answers (it does not watch the context)
+	DelayMS int
 }
 
 // FakeCA implements csr.Signer: it really certifies the requested public key.
@@ -98,6 +100,9 @@ func (ca *FakeCA) Sign(ctx context.Context, req *proto.SSHCertificateSigningRequ
 	ca.mu.Unlock()
 	if on != nil {
 		on(i)
+	}
+	if b.DelayMS > 0 {
+		time.Sleep(time.Duration(b.DelayMS) * time.Millisecond)
 	}
 	if b.Panic {
 		panic("verif: the signer panics")
